@@ -404,7 +404,11 @@ class Run:
     def __init__(self, prog, fail=None, start=True):
         self.prog = prog
         self.loop = dl.DetLoop()
-        asyncio.set_event_loop(self.loop)
+        # the thread's current loop while the process and its communicator live on `self.loop`: that loop, another one that never
+        # runs, or none (the messages are handled inside callbacks of self.loop; the direct calls of the twin are made from outside)
+        import zlib
+        self.loop_mode = ('own', 'foreign', 'none')[zlib.crc32(repr((prog, fail, start)).encode()) % 3]
+        dl.use_loop(self.loop, foreign={'own': False, 'foreign': True, 'none': 'none'}[self.loop_mode])
         self.loop_errors = []
         self.loop.set_exception_handler(lambda _l, c: self.loop_errors.append(
             type(c.get('exception')).__name__ if c.get('exception') is not None else str(c.get('message'))))
